@@ -166,7 +166,7 @@ pub fn step(st: &mut St, toks: &[&str]) -> String {
             let k = slot!(slot);
             match (nbytes.parse::<u64>(), seed.parse::<u64>()) {
                 (Ok(n), Ok(sd)) => {
-                    let chunk = pat_bytes(sd, 1 << 20);
+                    let chunk = pat_bytes(sd, crate::util::BIG_PERIOD);
                     let mut big = Vec::with_capacity(n as usize);
                     while big.len() < n as usize {
                         let c = (n as usize - big.len()).min(chunk.len());
@@ -181,7 +181,7 @@ pub fn step(st: &mut St, toks: &[&str]) -> String {
             let k = slot!(slot);
             match (nbytes.parse::<u64>(), seed.parse::<u64>()) {
                 (Ok(n), Ok(sd)) => {
-                    let chunk = pat_bytes(sd, 1 << 20);
+                    let chunk = pat_bytes(sd, crate::util::BIG_PERIOD);
                     let mut left = n as usize;
                     while left > 0 {
                         let c = left.min(chunk.len());
